@@ -62,6 +62,23 @@ func loadC19Progs(baseSeed uint64, nGen int) []*c19Prog {
 	out = append(out, &c19Prog{Name: "grid_flat", Header: []string{"\tORG\t0x7c00"}, Body: []string{"entry:", "\tMOV\tAX,0", "\tMOV\tSS,AX", "\tMOV\tSI,msg", "putloop:", "\tMOV\tAL,[SI]", "\tADD\tSI,1", "\tCMP\tAL,0", "\tJE\tfin", "\tMOV\tAH,0x0e", "\tINT\t0x10", "\tJMP\tputloop", "fin:", "\tHLT", "\tJMP\tfin", "msg:", "\tDB\t0x0a, 0x0a", "\tDB\t\"hello, world\"", "\tDB\t0x0a", "\tDB\t0", "\tRESB\t40"}})
 	out = append(out, &c19Prog{Name: "grid_coff", Coff: true, Header: []string{`[FORMAT "WCOFF"]`, `[INSTRSET "i486p"]`, "[BITS 32]", `[FILE "naskfunc.nas"]`},
 		Body: []string{"\tGLOBAL\t_io_hlt, _io_cli, _io_out8, _io_load_eflags_long_name", "[SECTION .text]", "_io_hlt:", "\tHLT", "\tRET", "_io_cli:", "\tCLI", "\tRET", "_io_out8:", "\tMOV\tEDX,[ESP+4]", "\tMOV\tAL,[ESP+8]", "\tOUT\tDX,AL", "\tRET", "_io_load_eflags_long_name:", "\tPUSHFD", "\tPOP\tEAX", "\tRET"}})
+	// larger images: implementations that write in blocks show several write calls in the trace
+	var bigBody []string
+	bigBody = append(bigBody, "start:")
+	for i := 0; i < 66; i++ { // 66 lines of 32 data bytes: a 2 KiB image from few statements
+		vals := make([]string, 32)
+		for k := range vals {
+			vals[k] = fmt.Sprint((i*31+k*7)%251 + 1)
+		}
+		bigBody = append(bigBody, "\tDB\t"+strings.Join(vals, ", "))
+		if i%16 == 15 {
+			bigBody = append(bigBody, fmt.Sprintf("\tMOV\tAX,%d", i+1), "\tADD\tAX,BX")
+		}
+	}
+	bigBody = append(bigBody, "fin:", "\tHLT", "\tJMP\tfin")
+	out = append(out, &c19Prog{Name: "grid_flat_big", Header: []string{"\tORG\t0x7c00"}, Body: bigBody})
+	out = append(out, &c19Prog{Name: "grid_coff_big", Coff: true, Header: []string{`[FORMAT "WCOFF"]`, `[INSTRSET "i486p"]`, "[BITS 32]", `[FILE "big.nas"]`},
+		Body: append([]string{"\tGLOBAL\tstart, fin", "[SECTION .text]"}, bigBody...)})
 	return out
 }
 
@@ -160,6 +177,13 @@ func (c *c19Ctx) genScenario(seed uint64, progs []*c19Prog) *Scenario {
 			k := 0
 			if len(img) > 0 {
 				k = r.Intn(len(img) + 1)
+				if len(img) > 512 && r.Chance(1, 2) { // block boundaries and their neighbours
+					k = (r.Intn(len(img)/512) + 1) * 512
+					if r.Chance(1, 4) {
+						k = (r.Intn(len(img)/512)+1)*512 - 256
+					}
+					k += pick(r, []int{0, 0, -1, 1})
+				}
 			}
 			if r.Chance(1, 6) {
 				k = len(img) + r.Intn(10)
@@ -201,9 +225,10 @@ func gridScenarios(c *c19Ctx, progs []*c19Prog, mode string, baseSeed uint64) []
 	var out []*Scenario
 	n := uint64(0)
 	for _, p := range progs {
-		if p.Name != "grid_flat" && p.Name != "grid_coff" {
+		if !strings.HasPrefix(p.Name, "grid_") {
 			continue
 		}
+		big := strings.HasSuffix(p.Name, "_big")
 		mk := func(f *Fault) *Scenario {
 			n++
 			return &Scenario{Seed: deriveSeed(baseSeed, 502, n), ProgName: p.Name, Header: p.Header, Body: p.Body, Enc: "ascii", Shape: "src-dst", SrcKind: "file", DstKind: "absent", Fault: f}
@@ -216,11 +241,24 @@ func gridScenarios(c *c19Ctx, progs []*c19Prog, mode string, baseSeed uint64) []
 		}
 		out = append(out, base)
 		var ks []int
-		if mode == "full" {
+		switch {
+		case big: // block boundaries and their neighbours
+			step := 512
+			if mode == "full" {
+				step = 256
+			}
+			for k := step; k < len(img); k += step {
+				ks = append(ks, k)
+				if mode == "full" || k%4096 == 0 || k == step {
+					ks = append(ks, k-1, k+1)
+				}
+			}
+			ks = append(ks, len(img)-1)
+		case mode == "full":
 			for k := 0; k <= len(img)+1; k++ {
 				ks = append(ks, k)
 			}
-		} else {
+		default:
 			ks = []int{0, 1, 19, 20, 21, len(img) / 2, len(img) - 1, len(img)}
 		}
 		for _, k := range ks {
@@ -268,8 +306,10 @@ func gridScenarios(c *c19Ctx, progs []*c19Prog, mode string, baseSeed uint64) []
 			out = append(out, mk(&Fault{Kind: "strace", Target: tg, Syscall: sys, When: n + 1, Errno: "EIO"}))
 		}
 		gridTraces[p.Name] = to.Trace
-		for k := 3; k <= 9; k++ {
-			out = append(out, mk(&Fault{Kind: "nofile", K: k}))
+		if !big {
+			for k := 3; k <= 9; k++ {
+				out = append(out, mk(&Fault{Kind: "nofile", K: k}))
+			}
 		}
 	}
 	return out
